@@ -297,6 +297,7 @@ struct CtxInner {
 
 impl Ctx {
     pub fn new(property: &str, tier: Tier, seed: u64, level: &'static str) -> Self {
+        crate::watch::start(property, tier.name(), seed, level);
         Ctx {
             property: property.to_string(),
             tier,
